@@ -280,3 +280,141 @@ package packet
 //@   ensures Sfail(s) ==> err != nil                                                 [@errprop]
 //@   ensures !Sfail(s) ==> err == nil                                                [@errprop]
 //@   modifies *v, stream(r)                                                          [@frame]
+
+// ---------------------------------------------------------------- length-prefixed and composite fields (C06, C08, C09)
+
+//@ func (String).WriteTo(str; w) (n, err)
+//@   let wk = sink(w)
+//@   let l0 = old(Wlen(wk))
+//@   ensures all(k, 0, l0, Wout(wk, k) == old(Wout(wk, k)))                         [@frame]
+//@   let hl = leb32_len(uint32(len(str)))
+//@   requires len(str) < 1<<31
+//@   ensures err == nil ==> n == hl + len(str) && Wlen(wk) == l0 + n                [@count]
+//@   ensures err == nil ==> all(q, 0, 5, q < hl ==> Wout(wk, l0+q) == leb32_byte(uint32(len(str)), q))   [@value]
+//@   ensures err == nil ==> all(j, 0, len(str), Wout(wk, l0 + hl + j) == str[j])    [@value]
+//@   ensures Wfail(wk) ==> err != nil                                                [@errprop]
+//@   ensures !Wfail(wk) ==> err == nil                                               [@errprop]
+//@   modifies sink(w)                                                                [@frame]
+
+//@ func (*String).ReadFrom(str; r) (n, err)
+//@   let st = stream(r)
+//@   let p0 = old(Spos(st))
+//@   let k = leb32_run(Sinrow(st), p0)
+//@   let L = int(int32(leb32_val(Sinrow(st), p0, k)))
+//@   ensures err == nil ==> L >= 0 && n == k + L && Spos(st) == p0 + n && len(*str) == L      [@count @consume]
+//@   ensures err == nil ==> all(j, 0, L, (*str)[j] == Sin(st, p0 + k + j))         [@value @filled]
+//@   ensures !Sfail(st) && (k > 5 || L < 0) ==> err != nil                          [@value]
+//@   ensures Sfail(st) ==> err != nil                                                [@errprop]
+//@   ensures !Sfail(st) && k <= 5 && L >= 0 ==> err == nil                          [@errprop]
+//@   modifies *str, stream(r)                                                        [@frame]
+
+//@ func (ByteArray).WriteTo(b; w) (n, err)
+//@   let wk = sink(w)
+//@   let l0 = old(Wlen(wk))
+//@   ensures all(k, 0, l0, Wout(wk, k) == old(Wout(wk, k)))                         [@frame]
+//@   let hl = leb32_len(uint32(len(b)))
+//@   requires len(b) < 1<<31
+//@   ensures err == nil ==> n == hl + len(b) && Wlen(wk) == l0 + n                  [@count]
+//@   ensures err == nil ==> all(q, 0, 5, q < hl ==> Wout(wk, l0+q) == leb32_byte(uint32(len(b)), q))   [@value]
+//@   ensures err == nil ==> all(j, 0, len(b), Wout(wk, l0 + hl + j) == b[j])        [@value]
+//@   ensures Wfail(wk) ==> err != nil                                                [@errprop]
+//@   ensures !Wfail(wk) ==> err == nil                                               [@errprop]
+//@   modifies sink(w)                                                                [@frame]
+
+//@ func (*ByteArray).ReadFrom(b; r) (n, err)
+//@   let st = stream(r)
+//@   let p0 = old(Spos(st))
+//@   let k = leb32_run(Sinrow(st), p0)
+//@   let L = int(int32(leb32_val(Sinrow(st), p0, k)))
+//@   ensures err == nil ==> L >= 0 && n == k + L && Spos(st) == p0 + n && len(*b) == L        [@count @consume]
+//@   ensures err == nil ==> all(j, 0, L, (*b)[j] == Sin(st, p0 + k + j))           [@value @filled]
+//@   ensures !Sfail(st) && (k > 5 || L < 0) ==> err != nil                          [@value]
+//@   ensures Sfail(st) ==> err != nil                                                [@errprop]
+//@   ensures !Sfail(st) && k <= 5 && L >= 0 ==> err == nil                          [@errprop]
+//@   modifies *b, (*b)[0:cap(*b)], stream(r)                                         [@frame]
+
+//@ func (UUID).WriteTo(u; w) (n, err)
+//@   let wk = sink(w)
+//@   let l0 = old(Wlen(wk))
+//@   ensures all(k, 0, l0, Wout(wk, k) == old(Wout(wk, k)))                         [@frame]
+//@   ensures Wlen(wk) == l0 + n && 0 <= n && n <= 16                                 [@count]
+//@   ensures err == nil ==> n == 16                                                  [@count]
+//@   ensures all(j, 0, 16, j < n ==> Wout(wk, l0 + j) == u[j])                       [@value]
+//@   ensures Wfail(wk) ==> err != nil                                                [@errprop]
+//@   ensures !Wfail(wk) ==> err == nil                                               [@errprop]
+//@   modifies sink(w)                                                                [@frame]
+
+//@ func (*UUID).ReadFrom(u; r) (n, err)
+//@   let st = stream(r)
+//@   let p0 = old(Spos(st))
+//@   ensures n == Spos(st) - p0 && 0 <= n && n <= 16                                 [@count @consume]
+//@   ensures err == nil ==> n == 16 && all(j, 0, 16, (*u)[j] == Sin(st, p0 + j))    [@value @filled]
+//@   ensures Sfail(st) ==> err != nil                                                [@errprop]
+//@   ensures !Sfail(st) ==> err == nil                                               [@errprop]
+//@   modifies *u, stream(r)                                                          [@frame]
+
+//@ func (Position).WriteTo(p; w) (n, err)
+//@   let wk = sink(w)
+//@   let l0 = old(Wlen(wk))
+//@   ensures all(k, 0, l0, Wout(wk, k) == old(Wout(wk, k)))                         [@frame]
+//@   loop 0: unroll 9
+//@   ensures Wlen(wk) == l0 + n && 0 <= n && n <= 8                                  [@count]
+//@   ensures err == nil ==> n == 8                                                   [@count]
+//@   ensures all(k, 0, 8, k < n ==> Wout(wk, l0+k) == be64_byte(pos_pack(uint64(p.X), uint64(p.Y), uint64(p.Z)), k))   [@value]
+//@   ensures Wfail(wk) ==> err != nil                                                [@errprop]
+//@   ensures !Wfail(wk) ==> err == nil                                               [@errprop]
+//@   modifies sink(w)                                                                [@frame]
+
+//@ func (*Position).ReadFrom(p; r) (n, err)
+//@   let st = stream(r)
+//@   let p0 = old(Spos(st))
+//@   ensures n == Spos(st) - p0 && 0 <= n && n <= 8                                  [@count @consume]
+//@   ensures err == nil ==> n == 8 && uint64(p.X) == pos_x(be64(Sinrow(st), p0)) && uint64(p.Y) == pos_y(be64(Sinrow(st), p0)) && uint64(p.Z) == pos_z(be64(Sinrow(st), p0))   [@value @filled]
+//@   ensures Sfail(st) ==> err != nil                                                [@errprop]
+//@   ensures !Sfail(st) ==> err == nil                                               [@errprop]
+//@   modifies *p, stream(r)                                                          [@frame]
+
+// 26/12/26-bit packing is a bijection on the signed cube
+//@ lemma pos_roundtrip(x i64, y i64, z i64): -(1<<25) <= x && x < 1<<25 && -(1<<11) <= y && y < 1<<11 && -(1<<25) <= z && z < 1<<25 ==> pos_x(pos_pack(x, y, z)) == x && pos_y(pos_pack(x, y, z)) == y && pos_z(pos_pack(x, y, z)) == z
+//@ lemma be64_roundtrip(x u64, a row, i i64): all(k, 0, 8, at(a, i+k) == be64_byte(x, k)) ==> be64(a, i) == x
+//@ lemma be32_roundtrip(x u32, a row, i i64): all(k, 0, 4, at(a, i+k) == be32_byte(x, k)) ==> be32(a, i) == x
+//@ lemma be16_roundtrip(x u16, a row, i i64): all(k, 0, 2, at(a, i+k) == be16_byte(x, k)) ==> be16(a, i) == x
+
+//@ func (Angle).WriteTo(a; w) (n, err)
+//@   let wk = sink(w)
+//@   let l0 = old(Wlen(wk))
+//@   ensures all(k, 0, l0, Wout(wk, k) == old(Wout(wk, k)))                         [@frame]
+//@   ensures Wlen(wk) == l0 + n && 0 <= n && n <= 1                                  [@count]
+//@   ensures err == nil ==> n == 1                                                   [@count]
+//@   ensures n == 1 ==> Wout(wk, l0) == uint8(a)                                     [@value]
+//@   ensures Wfail(wk) ==> err != nil                                                [@errprop]
+//@   ensures !Wfail(wk) ==> err == nil                                               [@errprop]
+//@   modifies sink(w)                                                                [@frame]
+
+//@ func (*Angle).ReadFrom(a; r) (n, err)
+//@   let st = stream(r)
+//@   let p0 = old(Spos(st))
+//@   ensures err == nil ==> n == 1 && Spos(st) == p0 + 1 && uint8(*a) == Sin(st, p0)           [@value @count @consume]
+//@   ensures Spos(st) >= p0 && Spos(st) <= p0 + 1                                    [@consume]
+//@   ensures Sfail(st) ==> err != nil                                                [@errprop]
+//@   ensures !Sfail(st) ==> err == nil                                               [@errprop]
+//@   modifies *a, stream(r)                                                          [@frame]
+
+//@ func (FixedBitSet).WriteTo(f; w) (n, err)
+//@   let wk = sink(w)
+//@   let l0 = old(Wlen(wk))
+//@   ensures all(k, 0, l0, Wout(wk, k) == old(Wout(wk, k)))                         [@frame]
+//@   ensures Wlen(wk) == l0 + n && 0 <= n && n <= len(f)                             [@count]
+//@   ensures err == nil ==> n == len(f)                                              [@count]
+//@   ensures all(j, 0, n, Wout(wk, l0 + j) == f[j])                                  [@value]
+//@   ensures Wfail(wk) ==> err != nil                                                [@errprop]
+//@   ensures !Wfail(wk) ==> err == nil                                               [@errprop]
+//@   modifies sink(w)                                                                [@frame]
+
+//@ func (FixedBitSet).ReadFrom(f; r) (n, err)
+//@   let st = stream(r)
+//@   let p0 = old(Spos(st))
+//@   ensures n == Spos(st) - p0 && 0 <= n && n <= len(f)                             [@count @consume]
+//@   ensures err == nil ==> n == len(f) && all(j, 0, len(f), f[j] == Sin(st, p0 + j))          [@value @filled]
+//@   ensures Sfail(st) ==> err != nil                                                [@errprop]
+//@   modifies f[:], stream(r)                                                        [@frame]
